@@ -18,17 +18,42 @@ ASSUMPTIONS = [
     "the caller passes zix_tree_remove an iterator of a live element of this tree (model: BAD_ARG otherwise, never "
     "exercised on the C side)",
     "parent-pointer stepping of zix_tree_iter_next/prev: the theorems of Properties_C06 are about the functional "
-    "tree (in-order neighbour by descent with the nearest left-/right-ancestor); the correspondence compares "
-    "iter_next and iter_prev from the held iterator of EVERY live node after every insert/remove (trees of up "
-    "to 24 nodes; token L), every n/p step and all walks against the extracted pointer-level model "
-    "coq/AvlHeapModel.v (heap of nodes with parent/left/right links, every pointer assignment of tree.c "
-    "transcribed), which is proved (coq/Properties_C06_heap.v) to refine the functional model; the model driver "
-    "also cross-checks the two models on every case (token HEAPDIFF on any disagreement); trees above 24 nodes "
-    "have their parent links exercised by the walks, n/p steps and steered paths only",
+    "tree (in-order neighbour by descent with the nearest left-/right-ancestor); coq/Properties_C06_heap.v proves "
+    "that the pointer-level model coq/AvlHeapModel.v (heap of nodes with parent/left/right links, every pointer "
+    "assignment of tree.c transcribed) refines it for all histories and that parent-pointer stepping there is "
+    "in-order stepping; the pointer-level model reads NULL/0 and writes nothing when it dereferences NULL or a "
+    "freed node (proved never to happen on the paths taken from a represented tree; for the C code this is "
+    "observed under ASan only); the correspondence compares iter_next and iter_prev from the held iterator of "
+    "EVERY live node after every insert/remove (trees of up to 24 nodes; token L), every n/p step and all walks "
+    "against the extracted pointer-level model; the model driver also cross-checks the two models on every case "
+    "(token HEAPDIFF on any disagreement); trees above 24 nodes have their parent links exercised by the walks, "
+    "n/p steps and steered paths only",
     "zix_tree_size cannot wrap (size = number of allocated nodes < 2^64)",
 ]
 
 _xstats = {}
+
+
+PROPS_HEAP = "Properties_C06_heap"     # the pointer-level refinement (parent links), second property file
+
+
+def check(ctx):
+    """standard flow, with the proof step compiling BOTH property files (functional model + heap refinement)"""
+    import sys
+    one = ctx.proof_step
+
+    def both(props_module=None, regen=None, timeout=900):
+        pr = one(props_module, regen=regen, timeout=timeout)
+        extra = one(PROPS_HEAP, timeout=timeout)
+        pr = {"file": pr["file"] + " + " + extra["file"], "theorems": pr["theorems"] + extra["theorems"],
+              "obligations": pr["obligations"] + extra["obligations"],
+              "discharged": pr["discharged"] + extra["discharged"], "ok": pr["ok"] and extra["ok"],
+              "axioms": sorted(set(pr["axioms"] + extra["axioms"])), "log": pr["log"] + extra["log"]}
+        ctx.proof = pr
+        return pr
+
+    ctx.proof_step = both
+    return vlib.standard_check(ctx, sys.modules[__name__])
 
 
 def _stale(target, sources):
